@@ -78,7 +78,7 @@ def gen_spec(rng, stream):
     bs = rng.choice([[3], [3], [2], [3, 2], [2, 2], [2, 1], [4]])
     if stream == "clean":
         root = gen_td(rng, bs, rng.choice([0, 1, 2, 2, 3]), allow_lazy=False, allow_nt=rng.random() < 0.5, top=True)
-        return {"root": root, "lock": rng.choice(["lock_", "lock_", "lock_", "memmap_"])}
+        return {"root": root, "lock": rng.choice(["lock_", "lock_", "lock_", "lock_", "memmap_", "none"])}
     if stream == "lazyroot":
         mbs = bs[1:]
         m0 = gen_member(rng, mbs, 0, allow_nt=rng.random() < 0.4)
